@@ -85,6 +85,9 @@ typedef struct MapQBIt { MapQB *m; int at_end; } MapQBIt;
 typedef struct MapBQ { unsigned long size; } MapBQ;
 typedef struct PairBQ { int unused; } PairBQ;
 //@struct Pomerol::StatesClassification only=Status,StateSize,IndexSize,StatesContainer,StateBlockIndex,QuantumToBlock,BlockToQuantum,IndexInfo,Symm embed=IndexInfo,Symm
+/* twins for the other spelling of an increment (`++it` for `it++` and vice versa): same effect.  X_inc yields the iterator after the step
+ * (exact); X_postinc made from X_inc is void, so a use of its value does not compile (UNDECIDED) instead of being modelled wrongly */
+#define VecFSIt_inc(it_) (VecFSIt_postinc(it_), (it_))      /* pre-increment: the iterator itself, after the step */
 //@function Pomerol::BlockNumber::operator int() const as BlockNumber_conv_int
 //@end
 
